@@ -96,6 +96,8 @@ type CaseSpec struct {
 	Tail  []OpSpec   `json:"tail"` // sent to the child after P5; then the parent is read again (P6)
 	// then: requests (configuration, restart, branch) followed by reads of named versions
 	Phases []PhaseSpec `json:"phases,omitempty"`
+	// POST query probes sent after P3 (readonly.go)
+	ROQ []ROSpec `json:"roq,omitempty"`
 }
 
 var metaNames = []string{"json_schema", "schema", "schema_batch"}
@@ -968,6 +970,10 @@ func runCase(t *table, cs CaseSpec, run *lib.Run) string {
 	r.masters = append(r.masters, child)
 	obs(parent, false) // P2
 	obs(child, true)   // P3
+	ro := []string{}
+	for _, p := range cs.ROQ {
+		ro = append(ro, r.probe(run, child, parent, p))
+	}
 	datastore.CloseReopenTest()
 	obs(child, true)   // P4
 	obs(parent, false) // P5
@@ -1055,7 +1061,7 @@ func runCase(t *table, cs CaseSpec, run *lib.Run) string {
 		}
 		reads = append(reads, fmt.Sprintf("(%s (%s, [%s]))", strings.Join(lets, " "), r.reqTerm(rs), strings.Join(refs, ";")))
 	}
-	return fmt.Sprintf("mkCase\n   [%s]\n   [%s]\n   [%s]\n   [%s]\n   [%s]\n   []", strings.Join(hist, ";\n    "), strings.Join(rx, ";"), strings.Join(reads, ";\n    "), strings.Join(tail, ";\n    "), strings.Join(phases, ";\n    "))
+	return fmt.Sprintf("mkCase\n   [%s]\n   [%s]\n   [%s]\n   [%s]\n   [%s]\n   []\n   [%s]\n   []", strings.Join(hist, ";\n    "), strings.Join(rx, ";"), strings.Join(reads, ";\n    "), strings.Join(tail, ";\n    "), strings.Join(phases, ";\n    "), strings.Join(ro, ";\n    "))
 }
 
 func main() {
@@ -1075,6 +1081,7 @@ func main() {
 	} else {
 		specs = corpus()
 		specs = append(specs, CaseSpec{Name: "scheduled"}) // pairs of overlapping requests (sched.go)
+		specs = append(specs, CaseSpec{Name: "ordering"})  // repeated updates: map iteration order (ordering.go)
 		n := 20
 		if o.Thorough() {
 			n = 90
@@ -1091,13 +1098,20 @@ func main() {
 	dv.Open()
 	terms := make([]string, len(specs))
 	for i := range specs {
-		if specs[i].Tail == nil && o.Replay == "" && specs[i].Name != "scheduled" {
+		if specs[i].Tail == nil && o.Replay == "" && specs[i].Name != "scheduled" && specs[i].Name != "ordering" {
 			specs[i].Tail = defaultTail(specs[i])
+			if specs[i].ROQ == nil {
+				specs[i].ROQ = defaultROQ(specs[i], rng)
+			}
 		}
 	}
 	for i, cs := range specs {
 		if cs.Name == "scheduled" {
 			terms[i] = runSchedules(t, run)
+			continue
+		}
+		if cs.Name == "ordering" {
+			terms[i] = runOrdering(t, run, o.Thorough())
 			continue
 		}
 		terms[i] = runCase(t, cs, run)
@@ -1110,7 +1124,7 @@ func main() {
 	if v := os.Getenv("VERIF_C16_VARIANT"); v != "" {
 		variant = "[" + v + "]"
 	}
-	run.Header("From Coq Require Import String.", "From DV Require Import Base.Prelude Model.NJ Model.NJRun.", "Local Open Scope string_scope.", "Local Open Scope N_scope.",
+	run.Header("From Coq Require Import String.", "From DV Require Import Base.Prelude Model.NJ Model.NJQuery Model.NJOrd Model.NJRun.", "Local Open Scope string_scope.", "Local Open Scope N_scope.",
 		"Definition impl_variants : list variant := "+variant+".")
 	run.Header(t.defs...)
 	for i, cs := range specs {
